@@ -10,6 +10,129 @@ pub use self::actual::parallel_collect;
 pub use self::actual::parallel_foreach_mut;
 pub use self::actual::parallel_into_collect;
 
+/// Verification hook: deterministic, plan-driven execution of the parallel wrappers on the
+/// calling thread. Active only when a plan provider is installed for the current thread.
+#[cfg(reinterpretcat_vrp_verif)]
+pub mod verif_plan {
+    use std::cell::RefCell;
+
+    /// A reduction tree over fold segments.
+    #[derive(Clone, Debug, PartialEq, Eq)]
+    pub enum Tree {
+        /// A segment with given index.
+        Leaf(usize),
+        /// An injected identity value.
+        Identity,
+        /// A reduction of two subtrees (order preserving).
+        Node(Box<Tree>, Box<Tree>),
+    }
+
+    /// A split plan for one parallel call.
+    #[derive(Clone, Debug, PartialEq, Eq)]
+    pub struct Plan {
+        /// Lengths of contiguous segments (sum equals to the number of items).
+        pub segments: Vec<usize>,
+        /// Reduction tree over segments.
+        pub tree: Tree,
+        /// Evaluate order-preserving maps in reverse index order.
+        pub reverse_maps: bool,
+    }
+
+    impl Plan {
+        /// A sequential plan for `n` items.
+        pub fn sequential(n: usize) -> Self {
+            Self { segments: vec![n], tree: Tree::Leaf(0), reverse_maps: false }
+        }
+    }
+
+    /// Decides a plan for each parallel call.
+    pub trait PlanProvider {
+        /// Returns a plan for the call of given kind with `n` items.
+        fn plan(&mut self, kind: &'static str, n: usize) -> Plan;
+    }
+
+    thread_local! {
+        static PROVIDER: RefCell<Option<Box<dyn PlanProvider>>> = RefCell::new(None);
+    }
+
+    /// Installs plan provider for the current thread.
+    pub fn install(provider: Box<dyn PlanProvider>) {
+        PROVIDER.with(|p| *p.borrow_mut() = Some(provider));
+    }
+
+    /// Removes plan provider from the current thread.
+    pub fn uninstall() -> Option<Box<dyn PlanProvider>> {
+        PROVIDER.with(|p| p.borrow_mut().take())
+    }
+
+    /// Returns true if plan provider is installed.
+    pub fn is_active() -> bool {
+        PROVIDER.with(|p| p.borrow().is_some())
+    }
+
+    pub(super) fn plan_for(kind: &'static str, n: usize) -> Plan {
+        // NOTE provider is taken out for the duration of the call to allow nested parallel calls
+        let mut provider = PROVIDER.with(|p| p.borrow_mut().take()).expect("no plan provider");
+        let plan = provider.plan(kind, n);
+        PROVIDER.with(|p| *p.borrow_mut() = Some(provider));
+        assert_eq!(plan.segments.iter().sum::<usize>(), n, "invalid plan: {plan:?} for {n} items");
+        plan
+    }
+
+    pub(super) fn run_fold_reduce<T, FI, FF, FR, R>(items: Vec<T>, identity: FI, fold: FF, reduce: FR) -> R
+    where
+        FI: Fn() -> R,
+        FF: Fn(R, T) -> R,
+        FR: Fn(R, R) -> R,
+    {
+        let plan = plan_for("fold_reduce", items.len());
+        let mut items = items.into_iter();
+        let mut segments = plan
+            .segments
+            .iter()
+            .map(|&len| Some((0..len).fold(identity(), |acc, _| fold(acc, items.next().expect("plan is too long")))))
+            .collect::<Vec<_>>();
+
+        eval_tree(&plan.tree, &mut segments, &identity, &reduce)
+    }
+
+    pub(super) fn run_map<T, FM, R>(items: Vec<T>, map_op: FM) -> Vec<R>
+    where
+        FM: Fn(T) -> R,
+    {
+        let plan = plan_for("map", items.len());
+        if plan.reverse_maps {
+            let mut results = items.into_iter().rev().map(map_op).collect::<Vec<_>>();
+            results.reverse();
+            results
+        } else {
+            items.into_iter().map(map_op).collect()
+        }
+    }
+
+    pub(super) fn run_map_reduce<T, FM, FD, FR, R>(items: Vec<T>, map_op: FM, default_op: FD, reduce_op: FR) -> R
+    where
+        FM: Fn(T) -> R,
+        FD: Fn() -> R,
+        FR: Fn(R, R) -> R,
+    {
+        // NOTE rayon's map + reduce is fold_reduce where each item is folded as `reduce(acc, map(item))`
+        run_fold_reduce(items, &default_op, |acc, item| reduce_op(acc, map_op(item)), &reduce_op)
+    }
+
+    fn eval_tree<R>(tree: &Tree, segments: &mut Vec<Option<R>>, identity: &dyn Fn() -> R, reduce: &dyn Fn(R, R) -> R) -> R {
+        match tree {
+            Tree::Leaf(idx) => segments[*idx].take().expect("segment is used twice in plan"),
+            Tree::Identity => identity(),
+            Tree::Node(left, right) => {
+                let left = eval_tree(left, segments, identity, reduce);
+                let right = eval_tree(right, segments, identity, reduce);
+                reduce(left, right)
+            }
+        }
+    }
+}
+
 #[cfg(not(target_arch = "wasm32"))]
 mod actual {
     use rayon::prelude::*;
@@ -34,6 +157,12 @@ mod actual {
             OP: FnOnce() -> R + Send,
             R: Send,
         {
+            #[cfg(reinterpretcat_vrp_verif)]
+            {
+                if super::verif_plan::is_active() {
+                    return op();
+                }
+            }
             self.inner.install(op)
         }
     }
@@ -55,6 +184,12 @@ mod actual {
         FM: Fn(T) -> R + Sync + Send,
         R: Send,
     {
+        #[cfg(reinterpretcat_vrp_verif)]
+        {
+            if super::verif_plan::is_active() {
+                return super::verif_plan::run_map(source.into_par_iter().collect::<Vec<T>>(), map_op);
+            }
+        }
         source.into_par_iter().map(map_op).collect()
     }
 
@@ -65,6 +200,12 @@ mod actual {
         F: Fn(T) -> R + Sync + Send,
         R: Send,
     {
+        #[cfg(reinterpretcat_vrp_verif)]
+        {
+            if super::verif_plan::is_active() {
+                return super::verif_plan::run_map(source, map_op);
+            }
+        }
         source.into_par_iter().map(map_op).collect()
     }
 
@@ -78,6 +219,13 @@ mod actual {
         FD: Fn() -> R + Sync + Send,
         R: Send,
     {
+        #[cfg(reinterpretcat_vrp_verif)]
+        {
+            if super::verif_plan::is_active() {
+                let items = source.par_iter().collect::<Vec<T>>();
+                return super::verif_plan::run_map_reduce(items, map_op, default_op, reduce_op);
+            }
+        }
         source.par_iter().map(map_op).reduce(default_op, reduce_op)
     }
 
@@ -91,6 +239,13 @@ mod actual {
         FR: Fn(R, R) -> R + Sync + Send,
         R: Send,
     {
+        #[cfg(reinterpretcat_vrp_verif)]
+        {
+            if super::verif_plan::is_active() {
+                let items = source.into_par_iter().collect::<Vec<T>>();
+                return super::verif_plan::run_fold_reduce(items, identity, fold, reduce);
+            }
+        }
         source.into_par_iter().fold(identity.clone(), fold).reduce(identity, reduce)
     }
 
@@ -100,6 +255,12 @@ mod actual {
         T: Send + Sync,
         F: Fn(&mut T) + Send + Sync,
     {
+        #[cfg(reinterpretcat_vrp_verif)]
+        {
+            if super::verif_plan::is_active() {
+                return source.iter_mut().for_each(action);
+            }
+        }
         source.par_iter_mut().for_each(action)
     }
 }
